@@ -288,9 +288,13 @@ func runCheck(args []string, repo, specs, tier string, jobs int, verbose bool) i
 		"wall_s":      round3(time.Since(start).Seconds()),
 		"violations":  nViol,
 	}
-	os.MkdirAll(filepath.Join(verifDir, "evidence"), 0o755)
+	evDir := filepath.Join(verifDir, "evidence")
+	if os.Getenv("VERIF_NO_EVIDENCE") != "" {
+		evDir = filepath.Join(verifDir, "work", "evidence-selftest") // must-fail runs do not touch the evidence files
+	}
+	os.MkdirAll(evDir, 0o755)
 	eb, _ := json.MarshalIndent(ev, "", " ")
-	os.WriteFile(filepath.Join(verifDir, "evidence", prop+".json"), eb, 0o644)
+	os.WriteFile(filepath.Join(evDir, prop+".json"), eb, 0o644)
 
 	fmt.Printf("%s: %d obligations, %d discharged, %d known findings, %d violations (%.1fs)\n", prop, total, nDis, nKnown, nViol, time.Since(start).Seconds())
 	for _, l := range violLines {
